@@ -87,11 +87,11 @@ class IrToPythonCompiler:
         """Emit a header suitable for in a python file"""
         self.emit(f"# Automatically generated on {time.ctime()}")
         self.emit(f"# Generator {__file__}")
+        self.emit("import math")
 
     def generate_runtime(self):
         self.emit("")
         self.emit("import struct")
-        self.emit("import math")
         # self.emit("import irpyrt")
         self.emit("")
         self.emit("class IrPy:")
